@@ -357,7 +357,7 @@ def normalise_tree(n):
         if r is not None:
             return r
     if k == "match" and n.get("src", "").startswith("Normal"):
-        r = control.match_bools(n) or control.match_guards(n) or control.entry_match(n)
+        r = control.match_bools(n) or control.match_guards(n) or control.entry_match(n) or control.match_ints(n)
         if r is not None:
             return normalise_tree(r)
     if k == "mcall":
